@@ -294,6 +294,10 @@ func (r *Runner) cfg(tok string) (cfgArgs, error) {
 		c.metric, c.prec = distance.Euclidean, distance.Float16
 	case "ci8":
 		c.metric, c.prec = distance.Cosine, distance.Int8
+	case "c16": // refused by the index constructor
+		c.metric, c.prec = distance.Cosine, distance.Float16
+	case "ei8": // refused by the index constructor
+		c.metric, c.prec = distance.Euclidean, distance.Int8
 	default:
 		return c, fmt.Errorf("unknown cfg token %q", tok)
 	}
